@@ -278,6 +278,15 @@ where
     for entry in &proof.non_primitives {
         air_public_counts.push(entry.public_values.len());
     }
+    // `allocate` panics on a count mismatch; a proof with the wrong number of opened
+    // instances is malformed input and must be an error.
+    if proof.proof.opened_values.instances.len() != air_public_counts.len() {
+        return Err(VerificationError::InvalidProofShape(format!(
+            "proof opens {} instances but the table list declares {}",
+            proof.proof.opened_values.instances.len(),
+            air_public_counts.len()
+        )));
+    }
     let verifier_inputs = BatchStarkVerifierInputsBuilder::<SC, Comm, OpeningProof>::allocate(
         circuit,
         &proof.proof,
@@ -428,6 +437,14 @@ where
         || (commitments_targets.random_commit.is_some() != SC::Pcs::ZK)
     {
         return Err(VerificationError::RandomizationError);
+    }
+
+    if lookup_terminals.len() != n_instances || instances.len() != n_instances {
+        return Err(VerificationError::InvalidProofShape(format!(
+            "expected {n_instances} instances and lookup terminals, got {} and {}",
+            instances.len(),
+            lookup_terminals.len()
+        )));
     }
 
     // Pre-compute per-instance quotient degrees and preprocessed widths, and validate proof shape.
